@@ -250,10 +250,21 @@ package oras
 //@ ghost local pcRefPushed bool
 //@ ghost local pcUserSkip bool
 //@
-//@ func copyCachedNodeWithReference
-//@   trusted
-//@   ensures result != SkipNode
+//@ iface registry.ReferencePusher.PushReference params ctx, expected, content, reference
 //@   ensures forall o any, k descriptor.Descriptor :: old(present(o, k)) ==> present(o, k)
+//@   modifies ghost.present, ghost.pushes, ghost.lastPush, ghost.closedRC, ghost.readerOver, alloc, elems[any]
+//@ func (*cas.Proxy).FetchCached
+//@   trusted
+//@   ensures result1 == nil ==> result0 != nil
+//@   ensures forall o any, k descriptor.Descriptor :: old(present(o, k)) ==> present(o, k)
+//@   modifies ghost.present, ghost.closedRC, ghost.readerOver, alloc
+//@ func copyCachedNodeWithReference
+//@   requires [wf] src != nil && dst != nil
+//@   opt trust-frame
+//@   call FetchCached requires [C01:root-read-from-the-cache] args.target == desc
+//@   call PushReference requires [C01:root-pushed-under-the-destination-reference] args.expected == desc && args.reference == dstRef
+//@   ensures [C01:never-a-skip-signal] result != SkipNode
+//@   assumes forall o any, k descriptor.Descriptor :: old(present(o, k)) ==> present(o, k)
 //@   modifies ghost.present, ghost.pushes, ghost.lastPush, ghost.closedRC, ghost.readerOver, alloc, elems[any]
 //@
 //@ iface content.Tagger.Tag params ctx, desc, reference
